@@ -210,6 +210,18 @@ def check(rep, tier, seed):
         jobs.append((["create", "--threads", t], bgzf_compress(vcf), "threads"))
     for p in ("65535", "65536", "4294967296"):
         jobs.append((["create", "--precision", p, "-p", "1"], vcf, "precision"))
+    # dozens of populations: the spectrum has one axis per population, so the number of entries (product of 2n+1) outgrows
+    # memory, Vec and usize in turn - a diagnosed error, whatever the number (F25)
+    mcols = ["s%d" % i for i in range(130)]
+    mvcf = render_vcf(mcols, [["0/1"] * 130, ["0/0"] * 129 + ["1/1"]])
+    for k in (11, 25, 30, 38, 39, 40, 41, 45, 64, 100, 130):
+        lst = ",".join("s%d=p%d" % (i, i) for i in range(k))
+        jobs.append((["create", "-s", lst], mvcf, "many-populations"))
+        if k >= 25:
+            jobs.append((["create", "-s", lst, "-p", ",".join(["1"] * k)], mvcf, "many-populations"))
+            jobs.append((["create", "-s", lst, "--strict"], mvcf, "many-populations"))
+    for k in (27, 28, 40):       # two samples each: 5^k
+        jobs.append((["create", "-s", ",".join("s%d=p%d" % (i, i // 2) for i in range(2 * k))], mvcf, "many-populations"))
     # cohorts at the seam with projection
     for nsmp in (85, 86, 87, 88):
         cols_ = ["s%d" % i for i in range(nsmp)]
